@@ -68,7 +68,11 @@ class History:
         self.name = 'w'
         if kind.startswith('hd-'):
             self.wt = kind[3:]
-            self.w = Wallet.create(self.name, keys=HDKey.from_seed(seed, witness_type=self.wt), witness_type=self.wt, network='bitcoin', db_uri=self.db)
+            # every second HD history runs on a wallet whose default account is not 0
+            acckw = {'account_id': rng.choice([1, 5])} if self.hseed % 2 == 1 else {}
+            self.w = Wallet.create(self.name, keys=HDKey.from_seed(seed, witness_type=self.wt), witness_type=self.wt, network='bitcoin', db_uri=self.db, **acckw)
+            if acckw:
+                self.ctx.count('wallet-with-default-account:%d' % acckw['account_id'])
         elif kind == 'single':
             self.wt = 'segwit'
             self.w = Wallet.create(self.name, keys=Key(int.from_bytes(seed, 'big') % (2 ** 255) + 1), scheme='single', witness_type='segwit', network='bitcoin', db_uri=self.db)
@@ -171,6 +175,9 @@ class History:
         spent_pts = [(i.prev_txid.hex(), i.output_n_int) for (_, raw_, _, _) in self.sent[-3:]
                      for i in self.parse_inputs(raw_)]
         respent = False
+        if not hasattr(self, 'out_info'):
+            self.out_info = {}
+        spent_pts = [pt for pt in spent_pts if pt in self.out_info]
         if spent_pts and rng.random() < 0.25:
             txid, n = rng.choice(spent_pts)          # the provider still lists an outpoint this wallet has spent already
             respent = True
@@ -184,6 +191,14 @@ class History:
             n = rng.choice([0, 1, 2, 3, 5, 7])
         val = rng.choice([546, 600, 10000, 50000, 123456, 10 ** 6, 2 * 10 ** 8])
         conf = rng.choice([0, 1, 6, 100])
+        if respent:
+            # (... with the address and the value it always had)
+            addr_, val = self.out_info[(txid, n)]
+            k = next(kk for kk in self.all_keys(self.w) if kk.address == addr_)
+        elif (txid, n) in self.out_info:
+            addr_, val = self.out_info[(txid, n)]
+            k = next(kk for kk in self.all_keys(self.w) if kk.address == addr_)
+        self.out_info[(txid, n)] = (k.address, val)
         self.w.utxo_add(k.address, val, txid, n, confirmations=conf)
         if not respent:
             self.stubs.append((txid, n))         # (a provider never invents further outputs of the wallet's own transactions)
@@ -231,6 +246,11 @@ class History:
             else:
                 # built by one wallet object, handed to a second object on the same database, sent there
                 t0 = self.w.transaction_create([(EXT[self.wt], amt)], fee=fee, min_confirms=minc)
+                if rng.random() < 0.4:
+                    # relative lock times / final-by-zero: small sequence numbers, 0 included, must survive storing and reloading
+                    for inp_ in t0.inputs:
+                        inp_.sequence = rng.choice([0, 0, 5])
+                    self.ctx.count('send:small-sequence')
                 w2 = self.open()
                 if how == 'import_obj':
                     t = w2.transaction_import(t0)
@@ -317,8 +337,12 @@ class History:
                 continue
             got_ins, got_outs = self.body_of(t)
             if t.txid != txid or got_ins != ins or got_outs != outs or t.raw_hex() != raw:
+                r2 = t.raw_hex()
+                pos = next((i_ for i_ in range(min(len(r2), len(raw))) if r2[i_] != raw[i_]), min(len(r2), len(raw)))
                 self.reload_problems.append((tag, txid, 'differs', {'ins': (got_ins, ins), 'outs': (got_outs, outs),
-                                                                    'raw_equal': t.raw_hex() == raw, 'txid': t.txid}))
+                                                                    'raw_equal': r2 == raw, 'txid': t.txid, 'first_difference_at_hex_char': pos,
+                                                                    'stored': raw[max(0, pos - 16):pos + 24], 'reloaded': r2[max(0, pos - 16):pos + 24],
+                                                                    'sequences': [i_.sequence for i_ in t.inputs], 'version': t.version_int, 'locktime': t.locktime}))
 
     def run(self):
         # the library draws from the global generators (change amounts, output order): seeded per history, so that a history replays
